@@ -171,12 +171,19 @@ class TextGen:
         r = self.r
         for k in range(n):
             path = f"{self.prefix.lower()}merge/pair{k}.ts"
+            first = None
             for j in range(2):
                 t = r.choice(DOC_TEXTS)
                 form = r.choice(["line", "two-lines", "attr", "block", "block-blank"]) if k % 3 else "block-blank"
+                fdoc = r.choice(DOC_TEXTS)
+                if j == 1 and k % 4 == 1:
+                    # the documentation of a field quotes the declaration of the other type in the same file
+                    fdoc = ("mentions-sibling", f" export type {first.name} = number;")
                 it = self.mk("named", docs=doc_attr_lines(r, t, form), export_to=path,
-                             fields=[Field("m", prim("i32"), docs=doc_attr_lines(r, r.choice(DOC_TEXTS), "line"))])
-                self.add(it, position="merge", cls=t[0], text=t[1], pair=f"{self.prefix}p{k}", form=form)
+                             fields=[Field("m", prim("i32"), docs=doc_attr_lines(r, fdoc, "line"))])
+                first = first or it
+                self.add(it, position="merge", cls=t[0], text=t[1], pair=f"{self.prefix}p{k}", form=form,
+                         field_cls=fdoc[0])
 
     def finish(self):
         self.g.items = self.items
